@@ -56,6 +56,41 @@ def r08_4(chk, tier):
                 chk.fail('R08.4', site, fn['file'], c.get('l'), '%s copies into the buffer at %s (line %s) and returns without advancing %s' % (fn['n'], cur, c.get('l'), cur), None, fn['q'])
     chk.require(n >= 2, 'R08.4: only %d buffer copies found in sink.hpp' % n)
 
+RESULT_TYPES = ('write_result', 'read_result', 'expected<', 'conversion_result', 'to_number_result', 'from_chars_result')
+
+def r08_5(chk, tier, units=('core', 'reflect')):
+    """An outcome that is asked for is looked at."""
+    chk.rule('R08.5', 'outcome discipline of the dump/encode routes: a local that receives the outcome object of a call (write_result, expected<...>, '
+                      'conversion_result, ...) in basic_json.hpp, encode_json.hpp or the reflect traits is read afterwards (tested, returned or '
+                      'passed on); an outcome stored and never read means an error reported by a nested value is dropped and the caller goes '
+                      'on writing - the output then claims success with a value missing', floor=20)
+    n = 0
+    for unit in units:
+        facts = F.load([unit], tier)
+        if unit not in chk.units: chk.units.append(unit)
+        seen = set()
+        for fn in facts.functions:
+            if fn.get('body') is None or fn.get('dep') or (fn['file'], fn['l']) in seen: continue
+            if not (fn['file'].endswith(('basic_json.hpp', 'encode_json.hpp', 'decode_json.hpp')) or '/reflect/' in fn['file'] or fn['file'].startswith('drivers/reflect.cpp')): continue
+            decls = [d for d in A.walk_no_lambda(fn['body']) if d.get('k') == 'VarDecl' and d.get('init') is not None and any(w in F.tname(fn, d.get('t')) for w in RESULT_TYPES)
+                     and any(A.is_call(y) for y in A.walk(d['init']))]
+            if not decls: continue
+            seen.add((fn['file'], fn['l']))
+            refs = {}
+            for y in A.walk_no_lambda(fn['body']):
+                if y.get('k') == 'DeclRefExpr': refs[y.get('id')] = refs.get(y.get('id'), 0) + 1
+            for d in decls:
+                n += 1
+                site = U.site(fn, 'outcome %s@%d' % (d.get('n'), d.get('l', 0) - fn['l']))
+                if refs.get(d['id'], 0) >= 1:
+                    chk.ok('R08.5', site, {'function': fn['q'], 'line': d.get('l')} if n % 20 == 1 else None)
+                else:
+                    chk.analysed(fn)
+                    call = next((y for y in A.walk(d['init']) if A.is_call(y) and A.callee_name(y)), None)
+                    chk.fail('R08.5', site, fn['file'], d.get('l'), '%s stores the outcome of %s() in `%s` (line %s) and never reads it: a failure of that call goes unnoticed and the function carries on' % (
+                        fn['n'], A.callee_name(call) if call else '?', d.get('n'), d.get('l')), None, fn['q'])
+    chk.require(n >= 20, 'R08.5: only %d outcome locals found' % n)
+
 def run(chk, tier, only_rule=None):
     chk.explanation = EXPLANATION
     chk.not_decided = NOT_DECIDED
@@ -127,4 +162,5 @@ def run(chk, tier, only_rule=None):
     c06.r06_5(chk, tier)
     c06.r06_6(chk, tier)
     r08_4(chk, tier)
+    r08_5(chk, tier)
     c06.ladders(chk, tier)      # a header that announces another width/family than the bytes that follow is not well-formed
